@@ -1,3 +1,4 @@
+from impl.excname import exc_name
 from sigma.rule import SigmaDetectionItem
 from sigma.types import SigmaString, SigmaExpansion, SpecialChars, Placeholder
 
@@ -42,7 +43,7 @@ def _guard(f):
     try:
         return f()
     except Exception as e:  # noqa
-        return {"exc": type(e).__name__, "sigma": isinstance(e, SigmaError), "msg": str(e)[:200]}
+        return {"exc": exc_name(e), "sigma": isinstance(e, SigmaError), "msg": str(e)[:200]}
 
 
 def run_pure(case):
